@@ -1,9 +1,10 @@
 """C14 — the C++ and the Python spec readers agree.       (translation validation + proved lexer-base core)
 
 1. obligations: `Props/C14.lean` — both hand-written lexer bases, as token-queue machines over an
-   abstract raw-lexer event stream, deliver the same token types for ever unless the stream ends with a
-   silently skipped newline; the witness of that exception; INDENT/DEDENT balance; the source pins
-   (harness/translate_lex.py) — lake build + axiom audit.
+   abstract raw-lexer event stream: the Python base delivers the intended token types on EVERY stream; the C++
+   base as found does unless the stream ends with a silently skipped newline (witness of that exception =
+   the open finding); the C++ base with the second end-of-input check equals the Python base on EVERY stream;
+   INDENT/DEDENT balance; the source pins (harness/translate_lex.py) — lake build + axiom audit.
 2. tie of the two machines to /repo, per text:
    (a) Python machine: the event stream is RECORDED from the real Python lexer (an instrumented subclass
        of FandangoLexer: on_newline / open_brace / close_brace / emit) and the model's `pyPulls` must equal
@@ -22,7 +23,8 @@ Known finding `C14/silent-newline-at-eof` (/var/tmp/fixes/C14-eof-after-skipped-
 that signature ONLY IF (i) Python accepts and C++ rejects, (ii) the recorded event stream of the text ends with a
 newline that `on_newline` skipped because the bracket counter is positive (computed from the recorded events, no
 model involved), and (iii) the model explains it: `cppPullsR true` (the base with the fix) delivers the real Python
-token stream on these events and `cppPullsR false` (the base as found) does not.  Everything else is
+token stream on these events and `cppPullsR false` (the base as found) does not, and (iv) the C++ source is still the one as found (pinned
+hash of nextToken).  Everything else is
 `C14/divergence:<python outcome>/<cpp outcome>` and a VIOLATION.
 """
 from __future__ import annotations
@@ -385,7 +387,7 @@ def replay(path: str) -> int:
 # fixed case counts per tier (nothing below is decided by the clock; the safety caps are ~5x the measured time)
 COUNTS = {
     "quick":    {"generated": 20, "perturbed": 80, "file_cap": 260, "py_alarm": 90, "safety_cap_s": 1200},
-    "thorough": {"generated": 150, "perturbed": 600, "file_cap": 5000, "py_alarm": 600, "safety_cap_s": 6000},
+    "thorough": {"generated": 200, "perturbed": 800, "file_cap": 6500, "py_alarm": 600, "safety_cap_s": 6000},
 }
 
 
@@ -540,7 +542,10 @@ def main(tier: str) -> int:
         pairs[key] = pairs.get(key, 0) + 1
         run.case(["diff", text], "err" not in a or "err" not in b, None)
         if a != b:
+            # … and only while the SOURCE of the C++ base is the one as found: with the fix in the source the same
+            # rejection means the binary is stale, which must not hide behind the known finding
             known_class = (kind_of(a) == "ok" and kind_of(b) == "err:FandangoSyntaxError"
+                           and gen.get("cppRecheck") is False
                            and skipped_end.get(text) is True and explained.get(text) is True)
             sig = "C14/silent-newline-at-eof" if known_class else f"C14/divergence:{kind_of(a)}/{kind_of(b)}"
             dcount[sig] = dcount.get(sig, 0) + 1
